@@ -110,13 +110,13 @@ func (e *Enc) instr(fr *Frame, st *State, instr ssa.Instruction) {
 		var addr string
 		if base.K == KSlice {
 			e.boundsCheck(st, fmt.Sprintf("(and (<= 0 %s) (< %s %s))", idx, idx, base.S[1]), "index in range: "+e.w.posOf(x.Pos()))
-			addr = fmt.Sprintf("(+ %s (* %d %s))", base.S[0], k, idx)
+			addr = elemAddr(base.S[0], k, idx)
 			e.setVal(fr, x, intVal(x.Type(), addr))
 		} else {
 			at := derefType(x.X.Type()).Underlying().(*types.Array)
 			e.assume(st, fmt.Sprintf("(not (= %s 0))", base.term()))
 			e.boundsCheck(st, fmt.Sprintf("(and (<= 0 %s) (< %s %d))", idx, idx, at.Len()), "array index in range: "+e.w.posOf(x.Pos()))
-			addr = fmt.Sprintf("(+ %s (* %d %s))", base.term(), k, idx)
+			addr = elemAddr(base.term(), k, idx)
 			v := intVal(x.Type(), addr)
 			v.Comp = base.Comp
 			if kindOf(et) == KStruct {
@@ -157,9 +157,9 @@ func (e *Enc) instr(fr *Frame, st *State, instr ssa.Instruction) {
 		et := elemType(x.Type())
 		k := sizeOf(et)
 		e.assume(st, fmt.Sprintf("(and (<= 0 %s) (<= %s %s) (<= %s %s))", ln, ln, cp, cp, pow2(40)))
-		ptr := e.allocObjN(st, fmt.Sprintf("(* %d %s)", k, cp), "mk")
+		ptr := e.allocObjN(st, mulK(k, cp), "mk")
 		if ln != "0" {
-			e.rangeZero(st, et, ptr, fmt.Sprintf("(* %d %s)", k, ln))
+			e.rangeZero(st, et, ptr, mulK(k, ln))
 		}
 		e.setVal(fr, x, &Val{T: x.Type(), K: KSlice, S: []string{ptr, ln, cp}})
 	case *ssa.MakeMap:
@@ -565,7 +565,7 @@ func (e *Enc) sliceInstr(fr *Frame, st *State, x *ssa.Slice) {
 		}
 		k := sizeOf(elemType(x.X.Type()))
 		e.setVal(fr, x, &Val{T: x.Type(), K: KSlice, S: []string{
-			fmt.Sprintf("(+ %s (* %d %s))", base.S[0], k, lo), app("-", hi, lo), app("-", mx, lo)}})
+			elemAddr(base.S[0], k, lo), app("-", hi, lo), app("-", mx, lo)}})
 	case isString(x.X.Type()):
 		if x.High != nil {
 			hi = e.val(fr, st, x.High).term()
@@ -590,7 +590,7 @@ func (e *Enc) sliceInstr(fr *Frame, st *State, x *ssa.Slice) {
 		e.boundsCheck(st, fmt.Sprintf("(and (<= 0 %s) (<= %s %s) (<= %s %s))", lo, lo, hi, hi, n), "slice bounds: "+pos)
 		k := sizeOf(at.Elem())
 		e.setVal(fr, x, &Val{T: x.Type(), K: KSlice, S: []string{
-			fmt.Sprintf("(+ %s (* %d %s))", base.term(), k, lo), app("-", hi, lo), app("-", n, lo)}})
+			elemAddr(base.term(), k, lo), app("-", hi, lo), app("-", n, lo)}})
 	}
 }
 
